@@ -459,7 +459,7 @@ func runExpScenario(sc expScenario, windowSec int) (res expResult) {
 
 func TestC14(t *testing.T) {
 	st := statsFor("C14", "TestC14")
-	st.Rule = "real-time scenarios, a batch of them running concurrently on separate buckets (memory / disk, 1-2 collections with the same keys): generated timelines of Add / Set / Set+PreserveExpiry / WriteCas / Touch / GetAndTouchRaw / WriteWithXattrs / Update / UpdateXattrs / Incr / Delete / close+reopen with expiries of 1-4 s, 60 s, 3600 s or none, as offsets or absolute times, in generated orders of deadlines; every 100 ms every key is read: a read that completes in a second before T must find the document, a read that starts at or after T+5 s must not, in between no judgement; expired documents must be coherent tombstones with a deletion event on a live feed; GetExpiry must report the expiry in force; non-trivial = a deadline earlier than the pending one is introduced by a different entry point than the one that armed the timer, or by Touch / PreserveExpiry / reopen; distinct by scenario"
+	st.Rule = "real-time scenarios, a batch of them running concurrently on separate buckets (memory / disk, 1-2 collections with the same keys): generated timelines of Add / delete-then-Add / Set / Set+PreserveExpiry / WriteCas / Touch / GetAndTouchRaw / WriteWithXattrs / Update / expiry-only Update / UpdateXattrs / WriteUpdateWithXattrs (also retried) / SetWithMeta / Incr / Delete / DeleteWithXattrs / Remove / close+reopen / drop+re-creation of the collection (40% of the two-collection timelines begin with a distant deadline in one collection and put most later ones into the other) with expiries of 1-4 s, 60 s, 3600 s or none, as offsets or absolute times, in generated orders of deadlines; every 100 ms every key is read: a read that completes in a second before T must find the document, a read that starts at or after T+5 s must not, in between no judgement; expired documents must be coherent tombstones with a deletion event on a live feed; GetExpiry must report the expiry in force; non-trivial = a deadline earlier than the pending one is introduced by a different entry point than the one that armed the timer, or by Touch / PreserveExpiry / reopen; distinct by scenario"
 	window := 12
 	if replayMode() {
 		rp := loadReplay("TestC14")
